@@ -239,7 +239,38 @@ def C13(ctx):
     return ctx.finish(min_evals=3000, min_buckets=100)
 
 
-CHECKS = {"C01": C01, "C02": C02, "C05": C05, "C11": C11, "C13": C13, "C04": C04, "C06": C06, "C14": C14, "C15": C15, "C16": C16, "C07": C07, "C08": C08, "C09": C09, "C10": C10, "C17": C17, "C19": C19, "C20": C20}
+def C03(ctx):
+    ctx.rule = ("case = one physical stream of 1-6 links (encoder-made and model-made: 64..8192-sample blocks, floor 0, 1-255 channels) damaged by one of 18 page-level operators "
+                "(case id mod 18: intact, garbage between pages, duplicated/dropped/swapped pages, foreign multiplexed stream with or without BOS, repeated serial numbers, EOS "
+                "cleared, lying or -1 granule positions, truncation, byte noise with stale or re-fixed CRC, pure random bytes, BOS mid-stream, page-number jump, zeroed span, "
+                "cut inside the headers) and in 25% of cases a second one; opened seekable / streaming / seek-callback-fails, via ov_open_callbacks / ov_test+ov_test_open / ov_test "
+                "only, with short-read schedules and initial preload; then a script of 30-120 (300) calls over ALL public vorbisfile functions with in-range, boundary and absurd "
+                "arguments (negative/huge positions and lengths, NaN/Inf times, link -5..links+5, word sizes -1..4, NULL out-pointers where optional, ov_crosslap with a second "
+                "handle and with itself); evaluation = one call: return value in the documented set (or data), returned pointers readable, close callback never run behind the "
+                "caller's back; failed opens: close count 0 and an all-zero handle; ASan/UBSan/LSan and a per-case CPU budget judge memory safety and termination; bucket = "
+                "(open outcome, damage, open mode)")
+    ctx.assumptions = TRUST_COMMON + ["after a failed open only ov_clear is called; after ov_test without ov_test_open only the queries the documentation allows",
+                                      "termination = per-case CPU-time budget (ITIMER_PROF), not wall clock"]
+    ctx.run("san", "vffault", "c03", _n(ctx.tier, 5760, 120000), extra_src=SPEC, stack_mb=64, env_extra={"VH_CPU": "90"})
+    return ctx.finish(min_evals=100000, min_buckets=200)
+
+
+def C12(ctx):
+    ctx.rule = ("case = (stream kind: single link | 3-link chain | small pages) x (scenario: open, open+read-all, pcm_seek, pcm_seek_page, time_seek, time_seek_page, raw_seek, "
+                "pcm_seek_lap, time_seek_page_lap, raw_seek_lap, halfrate toggle, crosslap, seek+reads): the scenario is first run fault-free to count its read/seek/tell callback "
+                "invocations K; then for EVERY invocation index k < K (stratified to 300 per kind in quick when K is larger; all up to 4000 in thorough) x 5 fault kinds (read "
+                "error with errno, premature zero read, one-byte read, seek -1, tell -1) x {one-shot, persistent} it is re-run on a fresh handle with the fault planted at k; "
+                "evaluation = one faulted run judged: every return in the documented set; close callback not run before ov_clear and exactly once overall; a read error / "
+                "seek -1 / tell -1 that fired during open or during a seek call must not end in plain success (reads may end in EOF; seek invocation 0 is the seekability probe); "
+                "if the open succeeded fault-free and the fault fired later: after the fault is cleared ov_pcm_seek to 3 positions succeeds, tells the target and the following "
+                "1500 samples are bit-identical to the never-faulted reference; sanitizers and the CPU budget (hang) judge the rest; bucket = (scenario, fault kind, stream kind)")
+    ctx.assumptions = TRUST_COMMON + ["faults are injected by the application-side callbacks; short, one-byte and premature-zero reads may legitimately end in success or EOF",
+                                      "a handle opened while a short read hid part of the file is judged for safety and termination only (the statement promises recovery for failures after a successful open)"]
+    ctx.run("san", "vffault", "c12", _n(ctx.tier, 624, 9360), extra_src=SPEC, env_extra={"VH_CPU": "120"})
+    return ctx.finish(min_evals=15000, min_buckets=120)
+
+
+CHECKS = {"C03": C03, "C12": C12, "C01": C01, "C02": C02, "C05": C05, "C11": C11, "C13": C13, "C04": C04, "C06": C06, "C14": C14, "C15": C15, "C16": C16, "C07": C07, "C08": C08, "C09": C09, "C10": C10, "C17": C17, "C19": C19, "C20": C20}
 
 _SAN = ("sanitizer findings (ASan, UBSan bounds/null/div-by-zero/pointer-overflow subset, LeakSanitizer), fatal signals and "
         "CPU-budget overruns in the same runs also fail the check")
@@ -324,6 +355,17 @@ META.update({
             "level_text": "Held on the executions observed: thousands of encoder / decoder / vorbisfile scenarios including refused set-ups, refused headers, failed opens and failed seeks, "
                           "each ending in doubled clear calls: live heap bytes return to baseline, nothing is freed twice, close runs exactly once and only in ov_clear of an opened handle; " + _SAN,
             "level_note": "Trusted: ASan runtime's allocation statistics; harness frees its own memory before measuring."},
+})
+META.update({
+    "C03": {"technique": "runtime monitor: sanitizers + return-code domain + failed-open post-conditions + CPU budget over damaged physical streams x random histories of all public vorbisfile calls",
+            "level_text": "Held on the executions observed: ~10^5 (thorough 10^6+) public calls on thousands of damaged/intact/model-made streams in three open modes; every return documented, "
+                          "failed opens leave a zeroed handle and an unclosed source, no call exceeds its CPU budget; " + _SAN,
+            "level_note": "Trusted: libogg, harness damage operators. A clean sanitizer run is not memory safety."},
+    "C12": {"technique": "runtime monitor: exhaustive-by-index callback fault injection with error-surfacing, no-hidden-close and recovery-vs-reference oracles, under ASan+UBSan",
+            "level_text": "Held on the executions observed: every callback invocation index of 13 scenarios x 3 stream kinds x 5 fault kinds x one-shot/persistent (tens of thousands of faulted "
+                          "runs per quick run): failures surface as error codes or EOF, nothing is closed behind the caller, nothing hangs, and after the fault clears seeks and reads equal a "
+                          "never-faulted decode; " + _SAN,
+            "level_note": "Trusted: harness callbacks and reference decode. Enumeration is exhaustive per scenario up to the stated per-kind cap."},
 })
 LEVEL = {"C12": "fault_enumeration"}
 
